@@ -29,6 +29,8 @@ CONFIG = {
 
 def generate(rng, tier):
     env = gen.gen_env(rng)
+    if rng.random() < 0.15:
+        env["process_model"] = "session"  # all commands of the run in one long-lived simulated process
     tree = gen.gen_tree(rng, max_entries=10, max_depth=2, hostile=0.15, unique=True, min_files=2, empty_dirs=True)
     tree.setdefault("D1", {"t": "d"})
     empty = None
@@ -90,7 +92,20 @@ def generate(rng, tier):
         news.append({"op": "write", "path": rel, "c": gen.unique_content(rng), "fault": "add_unrelated_file"})
     f2 = f1 if rng.random() < 0.4 else gen.pick_formats(rng, 1, 2)
     dr = ["create", "@R", "-dr"] + gen.fmt_args(f2) + (["-n"] if rng.random() < 0.2 else [])
-    return {"world": env, "ops": setup, "renames": renames, "news": news, "dr": dr, "edit_seed": rng.getrandbits(30)}
+    # an optional second round: other files renamed in a later generation (each file still renamed only once)
+    renames2 = []
+    if rng.random() < 0.4:
+        cands = [f for f in files if f not in moved and f not in taken - set(tree)]
+        rng.shuffle(cands)
+        for src in cands[: rng.randint(1, 2)]:
+            dst = os.path.normpath(os.path.join(rng.choice(dirs), "r2_%d" % rng.randrange(99)))
+            if dst in taken:
+                continue
+            taken.add(dst)
+            moved.add(src)
+            renames2.append({"op": "rename", "src": src, "dst": dst, "fault": "rename_second_round", "kind": "second-round"})
+    return {"world": env, "ops": setup, "renames": renames, "news": news, "dr": dr, "edit_seed": rng.getrandbits(30),
+            "renames2": renames2}
 
 
 def execute(sc, ctx):
@@ -189,6 +204,25 @@ def execute(sc, ctx):
             ctx.violate({"kind": "tree-not-accepted-after-dr", "cmd": name, "cause": r.extra.get("abort_type", r.brief())},
                         f"{name} after create -dr -> {r.brief()}; {desc0}; {r.stderr[-300:]} {r.extra.get('abort_tb', '')[-300:]}")
             return
+    # second round of renames in a later generation
+    applied2 = [r2 for r2 in sc.get("renames2", []) if w.apply_env(r2)]
+    if applied2:
+        w.advance(1_000_000)
+        rmap2 = {r2["src"]: r2["dst"] for r2 in applied2}
+        r = w.run_cmd(["create", w.root, "-dr"] + gen.fmt_args(f2))
+        ctx.evaluations += 1
+        if r.outcome != ("exit", 0):
+            ctx.violate({"kind": "create-dr-fails", "cause": r.extra.get("abort_type", r.brief()), "round": 2},
+                        f"second create -dr -> {r.brief()}; round 1 {rmap}; round 2 {rmap2}; {r.stderr[-300:]}")
+            return
+        for name in ("verify", "diff", "create"):
+            r = w.run_cmd([name, w.root] + (gen.fmt_args(f2) if name == "create" else []))
+            ctx.evaluations += 1
+            if r.outcome != ("exit", 0):
+                ctx.violate({"kind": "tree-not-accepted-after-dr", "cmd": name, "cause": r.extra.get("abort_type", r.brief()), "round": 2},
+                            f"{name} after the second create -dr -> {r.brief()}; round 1 {rmap}; round 2 {rmap2}; {r.stderr[-300:]}")
+                return
+        ctx.probe("rename_records_in_two_generations")
     # a renamed file whose content also changes is still caught
     victim = sorted(rmap.values())[sc["edit_seed"] % len(rmap)]
     if not w.apply_env({"op": "rewrite", "path": victim, "seed": sc["edit_seed"], "fault": "edit_renamed_file"}):
